@@ -119,6 +119,18 @@ def c14(ctx):
              "operand itself (outcome table by KIND; the same is_truthy that and/or/nor and the conditions use)")
     from .c03 import unary_rule
     unary_rule(ctx, "C14.R6")
+    rep.rule("C14.R7", "equality of values is the derived, component-wise equality -- symmetric and (NaN aside) reflexive by construction: the "
+             "PartialEq impls of Val, Array and DictKey carry #[automatically_derived]; a hand-written comparison (one-directional over the "
+             "dictionary, tolerant on numbers) cannot be shown symmetric or consistent with the ordering and is reported")
+    n_eq = 0
+    for adt in ("exec::val::Val", "exec::val::Array", "exec::val::DictKey"):
+        imps = [im for im in F.impls if im.get("trait") == "std::cmp::PartialEq" and im.get("trait_ref", "").startswith("<%s as " % adt)]
+        n_eq += len(imps)
+        ok = len(imps) == 1 and bool(imps[0].get("derived"))
+        rep.ob("C14.R7", "derived-equality::" + adt.rsplit("::", 1)[-1], ok,
+               "" if ok else ("%s has no PartialEq impl" % adt if not imps else "PartialEq for %s is written by hand (%s:%s): its symmetry and its agreement with compare() cannot be shown" % (adt, imps[0].get("file"), imps[0].get("lo"))),
+               "%s:%s" % (imps[0].get("file"), imps[0].get("lo")) if imps else None, how="#[derive(PartialEq)]")
+    rep.floor("C14.R7", n_eq, 3, "PartialEq impls of the value types")
 
 
 
